@@ -8,14 +8,17 @@ executors' return condition: every task is either finished or suspended on a cha
 pick order.  M-TASK (Model/Task.lean) is the per-task scheduling protocol: it shows that a woken task always has a
 `Runnable` somewhere (no lost wake-up at the task level).
 
-PARTIAL: the clause "the multiset of handler invocations and sink outputs is the same under every schedule" is *not*
-proved (it needs a confluence argument over derivation trees that this development does not contain); it is
-checked by the correspondence engine, which compares those multisets between the single-threaded executor, the
-multi-threaded executor with 1..8 workers and the model's own schedule.  The executors' idle detection (pool
+Schedule independence of the handler invocations is proved (`handler_invocations_are_schedule_independent`): every
+event gets, as ghost data, its *path* in the unfolding tree of the program (root = a model's init or a driver
+request, then operation index and connection index at every hop); a completed run has handled exactly the nodes of
+that tree, each once, whatever the interleaving.  PARTIAL: the same statement for *sink outputs* is not proved (the
+sink log of the model carries no event ids); it is checked by the correspondence engine, which compares sink
+contents between the single-threaded executor, the multi-threaded executor with 1..8 workers and the model's own
+schedule.  The executors' idle detection (pool
 manager, parking) is not modelled either: `returns_only_at_quiescence` below is the *definition* of a step in M-NET,
 tied to the code by that same comparison (an early return shows up as a missing invocation or as a wrong report).
 -/
-import NexoVerif.Lemmas.NetQuiesce
+import NexoVerif.Lemmas.NetConfluence
 import NexoVerif.Lemmas.TaskThm
 import NexoVerif.Model.NetRun
 
@@ -114,6 +117,30 @@ theorem blocked_only_on_channels (P : Prog) {s : St} (hf : s.fault = none) (hq :
           | replied => exact absurd hst' hnd
         · simp [hqr] at hnd
           exact absurd hnd hst
+
+/-- **handler_invocations_are_schedule_independent** — for models whose reactions depend only on message content (that
+is what a `Prog` is): take any two executions of the same program — any interleavings, hence any executor, thread
+count and task pick order — in which the driver issued the same requests (`roots`: the operation lists of its
+sending tasks, in order), and which both came to rest successfully (no fault, nothing enabled, in-flight counter 0).
+Then the handler invocations `(model, payload)` of the one are a permutation of those of the other: the multiset
+of handler invocations is the same under every schedule.  (`XReach` is `Reach` with ghost bookkeeping that never
+blocks a transition: `reach_xreach`.) -/
+theorem handler_invocations_are_schedule_independent (P : Prog) {x1 x2 : St × G} (h1 : XReach P x1) (h2 : XReach P x2)
+    (c1 : Completed P x1.1) (c2 : Completed P x2.1) (hcap : ∀ d, 1 ≤ P.cap d) (hroots : x1.2.roots = x2.2.roots) :
+    x1.1.handledP.Perm x2.1.handledP := completed_runs_agree P h1 h2 c1 c2 hcap hroots
+
+/-- **completed_run_is_the_unfolding_tree** — the characterisation behind it: in a completed run the handled events,
+tagged with their paths, are exactly the nodes of the unfolding tree of the program from the driver's requests —
+every handled event is a node (nothing invented), every node has been handled (nothing lost or left half-way), and
+no node twice. -/
+theorem completed_run_is_the_unfolding_tree (P : Prog) {x : St × G} (h : XReach P x) (c : Completed P x.1)
+    (hcap : ∀ d, 1 ≤ P.cap d) :
+    (evs x).Nodup ∧ ∀ π m p, (π, m, p) ∈ evs x ↔ InTree P x.2.roots π m p :=
+  ⟨evs_nodup P h, fun π m p => ⟨evs_sound P h π m p, evs_complete P h c hcap π m p⟩⟩
+
+/-- every execution of M-NET has a ghost extension (the ghost state never blocks) -/
+theorem every_execution_has_a_ghost_extension (P : Prog) {s : St} (h : Reach P s) : ∃ g, XReach P (s, g) :=
+  reach_xreach P h
 
 /-- **ok_iff_nothing_queued** — the run returns `Ok` exactly when nothing is queued: the in-flight counter is 0 iff
 every mailbox is empty (so `Ok` is never returned while a message is waiting to be processed). -/
